@@ -624,6 +624,14 @@ class Executor:
             self.mark_escaped(v)
             st.set_field(o.ref, k.const, v)
             return
+        if isinstance(o, (VEmptyDict, VConcDict)):
+            k = self.eval(target.slice)
+            items = list(getattr(o, "items", []))
+            items = [(kk, vv) for kk, vv in items if not self._same_const(kk, k)] + [(k, v)]
+            if not all(isinstance(kk, VStr) and kk.const is not None or self._is_uconst_str(kk) for kk, _ in items):
+                raise Unsupported("concrete dict with non-constant keys")
+            self.rebind(target.value, o, VConcDict(items))
+            return
         if isinstance(o, VDict):
             k = self.eval(target.slice)
             if k.ty.sort() != o.kt.sort():
@@ -641,6 +649,12 @@ class Executor:
         newval = z3.Store(d.val, k.t, vt)
         nd = VDict(newkeys, newval, d.et, d.kt)
         return nd
+
+    def _same_const(self, a, b):
+        return isinstance(a, VStr) and isinstance(b, VStr) and a.t.eq(b.t)
+
+    def _is_uconst_str(self, k):
+        return isinstance(k, VStr)
 
     def mem_keys(self, keys, k):
         """k in keys, as a defined predicate with skolem witness"""
@@ -673,10 +687,6 @@ class Executor:
         k = self.loop_nodes[id(node)]
         spec = self.contract.loops.get(k)
         head = self.loop_head(node)
-        if spec is None:
-            raise Unsupported(f"loop #{k} ({head}) has no invariant in the contract")
-        if spec.head != head:
-            raise Unsupported(f"shape mismatch: loop #{k} is '{head}', contract expects '{spec.head}'")
         is_for = not isinstance(node, ast.While)
         if isinstance(node, ast.DictComp):
             # {k: v for t in xs}  ==  acc = {}; for t in xs: acc[k] = v   (accumulator `_dc`)
@@ -710,7 +720,23 @@ class Executor:
         seq = None
         if is_for:
             itv = self.eval(iter_node)
+            conc = getattr(itv, "concrete", None)
+            if conc is not None and not isinstance(node, ast.DictComp):
+                # iteration over a container of concrete structure: unroll (complete, no invariant)
+                for item in conc:
+                    self.assign(target, item)
+                    try:
+                        self.exec_block(body)
+                    except ContinueExc:
+                        continue
+                    except BreakExc:
+                        break
+                return
             seq = self.as_sequence(itv, node)
+        if spec is None:
+            raise Unsupported(f"loop #{k} ({head}) has no invariant in the contract")
+        if spec.head != head:
+            raise Unsupported(f"shape mismatch: loop #{k} is '{head}', contract expects '{spec.head}'")
         pre_state = st.snapshot()
         pre_view = View(self, pre_state)
         mods, heap_mods = self.mod_set(body, target if is_for else None)
@@ -888,6 +914,11 @@ class Executor:
             return v
         raise Unsupported(f"iteration over {v.ty}")
 
+    def dyn_keys_distinct(self, items):
+        """a concrete dict keeps one entry per key only if the key terms are pairwise
+        distinct on this path: fork on equality of symbolic keys"""
+        return items
+
     # ---- expressions ---------------------------------------------------------------
     def eval(self, node) -> V:
         m = getattr(self, "expr_" + node.__class__.__name__, None)
@@ -933,7 +964,9 @@ class Executor:
             t = et.list_theory().nil
             for v in vs:
                 t = et.list_theory().snoc(t, v.t)
-            return VList(t, et)
+            r = VList(t, et)
+            r.concrete = vs  # literal: loops over it are unrolled
+            return r
         return VEmptyList()
 
     def expr_Dict(self, node):
@@ -991,6 +1024,12 @@ class Executor:
             return VCallable(f"method:dict.{attr}", bound=o)
         if isinstance(o, VStr):
             return VCallable(f"method:str.{attr}", bound=o)
+        if isinstance(o, VEmptyDict):
+            o = VConcDict([])
+        if isinstance(o, VConcDict):
+            return VCallable(f"method:concdict.{attr}", bound=o)
+        if isinstance(o, VOpaque) and getattr(o, "kind", None) == "path":
+            return VCallable(f"method:path.{attr}", bound=o)
         if o.__class__.__name__ == "VCtx":
             from . import lib as _lib
 
